@@ -21,11 +21,13 @@ only finiteness and constraints are demanded, the backward error is recorded.
 """
 
 import functools
+import re
 import signal
 import numpy
 
 EPS = float(numpy.finfo(float).eps)
 MULTIRHS_CONS_FINDING = 'C14-multirhs-float-constrain-broadcast'
+STEP_FINDING = 'C14-step-bisection-time-offset'
 
 
 class WallWatchdog(BaseException):
@@ -99,12 +101,16 @@ def _alarm(signum, frame):
     raise WallWatchdog()
 
 
-def arm(seconds):
+def arm(cpu_seconds, wall_seconds=None):
+    """per-case watchdog: a CPU-time timer (SIGPROF, independent of machine load) plus a generous wall-clock alarm (SIGALRM) as backstop"""
     signal.signal(signal.SIGALRM, _alarm)
-    signal.alarm(int(seconds))
+    signal.signal(signal.SIGPROF, _alarm)
+    signal.setitimer(signal.ITIMER_PROF, float(cpu_seconds))
+    signal.alarm(int(wall_seconds or 10 * cpu_seconds))
 
 
 def disarm():
+    signal.setitimer(signal.ITIMER_PROF, 0.)
     signal.alarm(0)
 
 
@@ -157,11 +163,25 @@ def record_exception(where, e):
     kind, name = classify(e)
     if kind == 'accepted':
         S.count(f'{where}/refused/{name}')
-        S.add('accepted_refusal_messages', f'{name}: {str(e)[:60]}')
+        S.add('accepted_refusal_messages', f'{name}: ' + re.sub(r'[0-9]+', '#', str(e)[:60]))
     else:
         S.count(f'{where}/other-refusal/{name}')
-        S.add('other_refusals', f'{where}: {name}: {str(e)[:90]}')
+        S.add('other_refusals', f'{where}: {name}: ' + re.sub(r'[0-9]+', '#', str(e)[:90]))
     S.event(f'{where} raised {name}: {str(e)[:80]}')
+
+
+def guarded(where, fn, *args, **kw):
+    """run a post-condition; an exception of the MONITOR itself must neither disturb the code under test nor go unnoticed"""
+    try:
+        return fn(*args, **kw)
+    except WallWatchdog:
+        raise
+    except Exception:
+        import traceback
+        S.count('monitor_exceptions')
+        if S.res is not None:
+            S.res.note(f'monitor exception in {where}: ' + traceback.format_exc()[-380:])
+        return None
 
 
 def dense(M):
@@ -214,15 +234,19 @@ def solve_spec(M, rhs, lhs0, constrain, rconstrain, atol, rtol):
         if r.shape != (nrows,) or r.dtype != bool or constrain is None or numpy.asarray(constrain).dtype != bool:
             return None
         I = ~r
-    if not (numpy.isfinite(A).all() and numpy.isfinite(b).all() and numpy.isfinite(x0).all()):
+    if not numpy.isfinite(x0).all():
         return None
     if not (numpy.isfinite(atol) and numpy.isfinite(rtol) and atol >= 0 and rtol >= 0):
         return None
+    multi_float = bool(tail) and constrain is not None and numpy.asarray(constrain).dtype != bool and bool((~J).any())
     with numpy.errstate(all='ignore'):
         bred = (b - A @ x0)[I]
-    tol = max(float(atol), float(rtol) * colnorm(bred))
-    multi_float = bool(tail) and constrain is not None and numpy.asarray(constrain).dtype != bool and bool((~J).any())
-    return dict(A=A, b=b, x0=x0, J=J, I=I, tol=tol, bred=bred, multi_float=multi_float)
+        bn = colnorm(bred)
+    if not (numpy.isfinite(A).all() and numpy.isfinite(b).all() and numpy.isfinite(bred).all() and numpy.isfinite(bn)):
+        # non-finite matrix/rhs, or norms that overflow: no residual statement, but a RETURNED vector must still be finite and honour the constraints
+        return dict(A=A, b=b, x0=x0, J=J, I=I, tol=0., bred=bred, multi_float=multi_float, finite_only=True)
+    tol = max(float(atol), float(rtol) * bn)
+    return dict(A=A, b=b, x0=x0, J=J, I=I, tol=tol, bred=bred, multi_float=multi_float, finite_only=False)
 
 
 def check_solve_result(where, spec, x, warned=None):
@@ -242,19 +266,20 @@ def check_solve_result(where, spec, x, warned=None):
         if not bits_equal(x[~J], x0[~J]):
             # known mechanism: NaN-float constraints combined with a multi-column rhs (values broadcast along the wrong axis)
             S.violate(where + ':constraint', f'constrained entries {x[~J].tolist()} != prescribed {x0[~J].tolist()}', MULTIRHS_CONS_FINDING if spec.get('multi_float') else None)
+    if spec.get('finite_only'):
+        S.count(where + '/nonfinite-input-finiteness-only')
+        return
     with numpy.errstate(all='ignore'):
         r = colnorm((b - A @ x)[I])
     mag = A.shape[1] * amax(A) * (amax(x) + amax(x0)) + amax(b)
     if tol > 0:
         v = band(r, tol, mag)
-        S.count(f'{where}/residual-{v}')
+        S.count(f'{where}/residual-{v}' if not (v == 'violation' and warned) else f'{where}/residual-above-tol-but-warned')
         if v == 'violation':
             if warned is None:
                 S.violate(where + ':residual', f'returned with free-row residual {r:.3e} > requested tolerance {tol:.3e} (mag {mag:.1e})')
             elif not warned:
                 S.violate(where + ':silent', f'returned without warning with free-row residual {r:.3e} > requested tolerance {tol:.3e}')
-            else:
-                S.count(where + '/lenient-warned-and-above-tol')
     else:
         S.count(where + '/machine-precision-requested')
         if mag > 0:
@@ -281,13 +306,13 @@ def wrap_matrix_solve(orig):
                 if best is not None and numpy.shape(best) == spec['x0'].shape and (~spec['J']).any():
                     S.count(where + '/best-constraint-checks')
                     if numpy.isfinite(best).all() and not bits_equal(numpy.asarray(best)[~spec['J']], spec['x0'][~spec['J']]):
-                        S.violate(where + ':best-constraint', 'ToleranceNotReached.best violates the constraints')
+                        S.violate(where + ':best-constraint', 'ToleranceNotReached.best violates the constraints', MULTIRHS_CONS_FINDING if spec.get('multi_float') else None)
             raise
         S.count(where + '/returned')
         if spec is None:
             S.count(where + '/outside-domain')
         else:
-            check_solve_result(where, spec, x)
+            guarded(where, check_solve_result, where, spec, x)
         return x
     solve._c14_wrapped = True
     return solve
@@ -318,10 +343,52 @@ def wrap_matrix_solve_leniently(orig):
         if spec is None:
             S.count(where + '/outside-domain')
         else:
-            check_solve_result(where, spec, x, warned=warned)
+            guarded(where, check_solve_result, where, spec, x, warned=warned)
         return x
     solve_leniently._c14_wrapped = True
     return solve_leniently
+
+
+def check_solver_result(where, M, rhs, solver, atol, rtol, solverargs, x):
+    A = dense(M)
+    b = numpy.asarray(rhs)
+    if b.ndim not in (1, 2):
+        S.count(where + '/outside-domain')
+        return
+    if not (numpy.isfinite(A).all() and numpy.isfinite(b).all() and numpy.isfinite(atol) and numpy.isfinite(rtol) and numpy.isfinite(colnorm(b))):
+        # garbage in: the only thing still demanded of a RETURNED vector is finiteness
+        S.count(where + '/nonfinite-input-finiteness-only')
+        if numpy.shape(x) == b.shape and not numpy.isfinite(x).all():
+            S.violate(where + ':non-finite', 'returned non-finite left hand side (non-finite input)')
+        return
+    S.count(where + '/checked')
+    S.add('linear_solvers_returned', f'{type(M).__name__}:{solver if isinstance(solver, str) else "callable"}:{solverargs.get("precon", "-")}')
+    xa = numpy.asarray(x)
+    if xa.shape != b.shape:
+        S.violate(where + ':shape', f'returned shape {xa.shape} for rhs shape {b.shape}')
+        return
+    if not numpy.isfinite(xa).all():
+        S.violate(where + ':non-finite', 'returned non-finite left hand side')
+        return
+    bn = colnorm(b)
+    tol = max(float(atol), float(rtol) * bn)
+    if not numpy.isfinite(tol):
+        S.count(where + '/outside-domain')
+        return
+    with numpy.errstate(all='ignore'):
+        r = colnorm(b - A @ xa)
+    mag = A.shape[1] * amax(A) * amax(xa) + amax(b)
+    if bn <= tol:
+        S.count(where + '/rhs-within-tolerance' + ('-zero' if bn == 0 else '-nonzero'))
+    if tol > 0:
+        v = band(r, tol, mag)
+        S.count(f'{where}/residual-{v}')
+        if v == 'violation':
+            S.violate(where + ':residual', f'returned with residual {r:.3e} > max(atol, rtol*|b|) = {tol:.3e} (solver {solver!r}, args {sorted(solverargs)})')
+    else:
+        S.count(where + '/machine-precision-requested')
+        if mag > 0:
+            S.maximum('backward_error_at_tol0', r / mag)
 
 
 def wrap_matrix_solver(orig):
@@ -335,40 +402,7 @@ def wrap_matrix_solver(orig):
             record_exception(where, e)
             raise
         S.count(where + '/returned')
-        try:
-            A = dense(self)
-            b = numpy.asarray(rhs)
-            ok = numpy.isfinite(A).all() and numpy.isfinite(b).all() and numpy.isfinite(atol) and numpy.isfinite(rtol) and b.ndim in (1, 2)
-        except Exception:
-            ok = False
-        if not ok:
-            S.count(where + '/outside-domain')
-            return x
-        S.count(where + '/checked')
-        S.add('linear_solvers_returned', f'{type(self).__name__}:{solver if isinstance(solver, str) else "callable"}:{solverargs.get("precon", "-")}')
-        xa = numpy.asarray(x)
-        if xa.shape != b.shape:
-            S.violate(where + ':shape', f'returned shape {xa.shape} for rhs shape {b.shape}')
-            return x
-        if not numpy.isfinite(xa).all():
-            S.violate(where + ':non-finite', 'returned non-finite left hand side')
-            return x
-        bn = colnorm(b)
-        tol = max(float(atol), float(rtol) * bn)
-        with numpy.errstate(all='ignore'):
-            r = colnorm(b - A @ xa)
-        mag = A.shape[1] * amax(A) * amax(xa) + amax(b)
-        if bn <= tol:
-            S.count(where + '/rhs-within-tolerance' + ('-zero' if bn == 0 else '-nonzero'))
-        if tol > 0:
-            v = band(r, tol, mag)
-            S.count(f'{where}/residual-{v}')
-            if v == 'violation':
-                S.violate(where + ':residual', f'returned with residual {r:.3e} > max(atol, rtol*|b|) = {tol:.3e} (solver {solver!r}, args {sorted(solverargs)})')
-        else:
-            S.count(where + '/machine-precision-requested')
-            if mag > 0:
-                S.maximum('backward_error_at_tol0', r / mag)
+        guarded(where, check_solver_result, where, self, rhs, solver, atol, rtol, solverargs, x)
         return x
     _solver._c14_wrapped = True
     return _solver
@@ -439,6 +473,9 @@ def check_system_result(where, system, out, arguments, constrain, tol, oracle_ke
         return
     with numpy.errstate(all='ignore'):
         rvec, mag = orc[oracle_key](out)
+        if len(rvec) != len(free):
+            S.count(where + '/no-oracle')
+            return
         rn = float(numpy.linalg.norm(numpy.asarray(rvec)[free])) if free.any() else 0.
     S.count(where + '/oracle-evaluated')
     if tol > 0:
@@ -466,10 +503,7 @@ def wrap_system_solve(orig):
             record_exception(where, e)
             raise
         S.count(where + '/returned')
-        try:
-            check_system_result(where, self, out, kw.get('arguments', {}), kw.get('constrain', {}), float(kw.get('tol', 0.)))
-        except WallWatchdog:
-            raise
+        guarded(where, check_system_result, where, self, out, kw.get('arguments', {}), kw.get('constrain', {}), float(kw.get('tol', 0.)))
         return out
     solve._c14_wrapped = True
     return solve
@@ -479,10 +513,19 @@ def wrap_system_step(orig):
     @functools.wraps(orig)
     def step(self, **kw):
         where = 'System.step'
-        d = S.depth.get('step', 0)
-        S.depth['step'] = d + 1
+        stack = S.depth.setdefault('stepstack', [])
+        d = len(stack)
         S.count(where + ('/calls' if d == 0 else '/bisection-substeps'))
         S.maximum('step_bisection_depth', d)
+        if d == 0:
+            S.depth['bisect_sum'] = 0.
+            S.depth['bisected'] = 0
+        else:
+            S.depth['bisected'] = S.depth.get('bisected', 0) + 1
+            if not stack[-1]['marked']:    # the enclosing step failed and is retrying with half its timestep
+                stack[-1]['marked'] = True
+                S.depth['bisect_sum'] = S.depth.get('bisect_sum', 0.) + float(stack[-1]['timestep'] or 0.)
+        stack.append(dict(timestep=kw.get('timestep'), marked=False))
         try:
             out = orig(self, **kw)
         except Exception as e:
@@ -490,19 +533,29 @@ def wrap_system_step(orig):
                 record_exception(where, e)
             raise
         finally:
-            S.depth['step'] = d
+            stack.pop()
         if d == 0:
             S.count(where + '/returned')
-            timearg, timestep = kw.get('timearg'), kw.get('timestep')
-            if timearg and timestep is not None:
-                t0 = float(numpy.asarray(kw.get('arguments', {}).get(timearg, 0.)))
-                t1 = float(numpy.asarray(out.get(timearg, numpy.nan)))
-                S.count(where + '/time-checks')
-                if not abs(t1 - (t0 + timestep)) <= 1e-9 * max(1., abs(t0), abs(timestep)):
-                    S.violate(where + ':time', f'{timearg} advanced from {t0} to {t1}, requested step {timestep}')
+            guarded(where, check_step_result, where, kw, out)
         return out
     step._c14_wrapped = True
     return step
+
+
+def check_step_result(where, kw, out):
+    timearg, timestep = kw.get('timearg'), kw.get('timestep')
+    if not timearg or timestep is None:
+        return
+    t0 = float(numpy.asarray(kw.get('arguments', {}).get(timearg, 0.)))
+    t1 = float(numpy.asarray(out.get(timearg, numpy.nan)))
+    S.count(where + '/time-checks')
+    scale = max(1., abs(t0), abs(timestep))
+    if not abs(t1 - (t0 + timestep)) <= 1e-9 * scale:
+        # known mechanism: every retry after a failed (sub)step starts from the already advanced time, so the final time
+        # overshoots by exactly the sum of the time steps of the failed (sub)steps
+        known = S.depth.get('bisected') and abs(t1 - (t0 + timestep + S.depth.get('bisect_sum', 0.))) <= 1e-9 * scale
+        S.violate(where + ':time', f'{timearg} advanced from {t0} to {t1}, requested step {timestep} ({S.depth.get("bisected", 0)} bisection sub-steps, '
+                  f'failed steps sum to {S.depth.get("bisect_sum", 0.)})', STEP_FINDING if known else None)
 
 
 def constraints_expectation(system, arguments, constrain, droptol, orc):
@@ -522,6 +575,65 @@ def constraints_expectation(system, arguments, constrain, droptol, orc):
     return dict(pres=pres, free=free, expect_nan=expect_nan, marginal=marginal, A=A, b=b)
 
 
+def check_constraints_result(where, self, kw, out):
+    orc = S.oracle
+    if not orc or 'linear' not in orc or tuple(orc['trials']) != tuple(self.trials):
+        S.count(where + '/no-oracle')
+        return
+    arguments, constrain, droptol = kw.get('arguments', {}), kw.get('constrain', {}), kw['droptol']
+    linargs = kw.get('linargs', {})
+    exp = constraints_expectation(self, arguments, constrain, float(droptol), orc)
+    if exp is None:
+        S.count(where + '/outside-domain')
+        return
+    S.count(where + '/checked')
+    got = numpy.concatenate([numpy.asarray(out[t], dtype=float).ravel() for t in self.trials])
+    gotnan = numpy.isnan(got)
+    if exp['marginal']:
+        S.count(where + '/droptol-marginal')
+    elif (gotnan != exp['expect_nan']).any():
+        S.violate(where + ':nan-pattern', f'NaN pattern {gotnan.astype(int).tolist()} != expected {exp["expect_nan"].astype(int).tolist()} (droptol {droptol})')
+        return
+    else:
+        S.count(where + '/nan-pattern-ok')
+        if gotnan.any() and not gotnan.all():
+            S.count(where + '/nan-pattern-nontrivial')
+    if not numpy.isfinite(got[~gotnan]).all():
+        S.violate(where + ':non-finite', f'non-NaN entries are not finite: {got.tolist()}')
+        return
+    ofs = 0
+    x_init = []
+    for t, shape in zip(self.trials, self.trial_shapes):
+        mask, vals = exp['pres'][t]
+        v = numpy.asarray(out[t])
+        if mask.any():
+            S.count(where + '/constraint-checks')
+            if not bits_equal(v[mask], vals):
+                S.violate(where + ':constraint', f'{t}: constrained entries {v[mask].tolist()} != prescribed {numpy.asarray(vals).tolist()}')
+        a = arguments.get(t)
+        x_init.append(numpy.zeros(mask.size) if a is None else numpy.asarray(a, dtype=float).ravel())
+    x_init = numpy.concatenate(x_init)
+    # residual of the retained rows, dropped entries held at their initial value
+    x = numpy.where(gotnan, x_init, got)
+    xstart = x_init.copy()
+    fixed = ~exp['free']
+    xstart[fixed] = got[fixed]
+    rows = exp['free'] & ~gotnan
+    A, b = exp['A'], exp['b']
+    with numpy.errstate(all='ignore'):
+        r = float(numpy.linalg.norm((A @ x - b)[rows])) if rows.any() else 0.
+        bred = float(numpy.linalg.norm((A @ xstart - b)[rows])) if rows.any() else 0.
+    tol = max(float(linargs.get('atol', 0.)), float(linargs.get('rtol', 0.)) * bred)
+    mag = len(x) * amax(A) * (amax(x) + amax(xstart)) + amax(b)
+    if tol > 0:
+        v = band(r, tol, mag)
+        S.count(f'{where}/residual-{v}')
+        if v == 'violation':
+            S.violate(where + ':residual', f'retained-row residual {r:.3e} > requested {tol:.3e}')
+    elif mag > 0:
+        S.maximum('constraints_backward_error_at_tol0', r / mag)
+    return
+
 def wrap_system_solve_constraints(orig):
     @functools.wraps(orig)
     def solve_constraints(self, **kw):
@@ -533,62 +645,7 @@ def wrap_system_solve_constraints(orig):
             record_exception(where, e)
             raise
         S.count(where + '/returned')
-        orc = S.oracle
-        if not orc or 'linear' not in orc or tuple(orc['trials']) != tuple(self.trials):
-            S.count(where + '/no-oracle')
-            return out
-        arguments, constrain, droptol = kw.get('arguments', {}), kw.get('constrain', {}), kw['droptol']
-        linargs = kw.get('linargs', {})
-        exp = constraints_expectation(self, arguments, constrain, float(droptol), orc)
-        if exp is None:
-            S.count(where + '/outside-domain')
-            return out
-        S.count(where + '/checked')
-        got = numpy.concatenate([numpy.asarray(out[t], dtype=float).ravel() for t in self.trials])
-        gotnan = numpy.isnan(got)
-        if exp['marginal']:
-            S.count(where + '/droptol-marginal')
-        elif (gotnan != exp['expect_nan']).any():
-            S.violate(where + ':nan-pattern', f'NaN pattern {gotnan.astype(int).tolist()} != expected {exp["expect_nan"].astype(int).tolist()} (droptol {droptol})')
-            return out
-        else:
-            S.count(where + '/nan-pattern-ok')
-            if gotnan.any() and not gotnan.all():
-                S.count(where + '/nan-pattern-nontrivial')
-        if not numpy.isfinite(got[~gotnan]).all():
-            S.violate(where + ':non-finite', f'non-NaN entries are not finite: {got.tolist()}')
-            return out
-        ofs = 0
-        x_init = []
-        for t, shape in zip(self.trials, self.trial_shapes):
-            mask, vals = exp['pres'][t]
-            v = numpy.asarray(out[t])
-            if mask.any():
-                S.count(where + '/constraint-checks')
-                if not bits_equal(v[mask], vals):
-                    S.violate(where + ':constraint', f'{t}: constrained entries {v[mask].tolist()} != prescribed {numpy.asarray(vals).tolist()}')
-            a = arguments.get(t)
-            x_init.append(numpy.zeros(mask.size) if a is None else numpy.asarray(a, dtype=float).ravel())
-        x_init = numpy.concatenate(x_init)
-        # residual of the retained rows, dropped entries held at their initial value
-        x = numpy.where(gotnan, x_init, got)
-        xstart = x_init.copy()
-        fixed = ~exp['free']
-        xstart[fixed] = got[fixed]
-        rows = exp['free'] & ~gotnan
-        A, b = exp['A'], exp['b']
-        with numpy.errstate(all='ignore'):
-            r = float(numpy.linalg.norm((A @ x - b)[rows])) if rows.any() else 0.
-            bred = float(numpy.linalg.norm((A @ xstart - b)[rows])) if rows.any() else 0.
-        tol = max(float(linargs.get('atol', 0.)), float(linargs.get('rtol', 0.)) * bred)
-        mag = len(x) * amax(A) * (amax(x) + amax(xstart)) + amax(b)
-        if tol > 0:
-            v = band(r, tol, mag)
-            S.count(f'{where}/residual-{v}')
-            if v == 'violation':
-                S.violate(where + ':residual', f'retained-row residual {r:.3e} > requested {tol:.3e}')
-        elif mag > 0:
-            S.maximum('constraints_backward_error_at_tol0', r / mag)
+        guarded(where, check_constraints_result, where, self, kw, out)
         return out
     solve_constraints._c14_wrapped = True
     return solve_constraints
@@ -610,7 +667,7 @@ def wrap_solve_withinfo(orig):
         if self.item is not None and len(self.system.trials) != 1:
             S.count(where + '/outside-domain')
             return lhs, info
-        check_system_result(where, self.system, out, self.arguments, self.constrain, float(tol))
+        guarded(where, check_system_result, where, self.system, out, self.arguments, self.constrain, float(tol))
         return lhs, info
     solve_withinfo._c14_wrapped = True
     return solve_withinfo
